@@ -478,6 +478,68 @@ def typekey_correspondence(ctx, out, rng):
                       {'correspondence': 'corr_typekey', 'case': eg[:1500]}, no_input=True)
 
 
+def equal_valued_types(out):
+    """types that are different types but whose PARTS compare equal as Python values -- Literal[1] / Literal[True] / Literal[1.0],
+    Literal[0] / Literal[False], the same inside List[...], Optional[...] and as a dataclass field: the outcome of converting a
+    probe to B after A was used (in this order and the reverse, every ordered pair) is the outcome B gives with an empty
+    converter cache."""
+    import typing as t
+    import pane
+    from pane.convert import make_converter
+    cache = getattr(make_converter, 'cache', None)
+    if not isinstance(cache, dict):
+        return 0
+    n = 0
+    groups = [[t.Literal[1], t.Literal[True], t.Literal[1.0]], [t.Literal[0], t.Literal[False]], [t.Literal[1, 2], t.Literal[True, 2]],
+              [t.Literal['a', 1], t.Literal['a', True]]]
+    probes = [1, True, 1.0, 0, False, 0.0, 2, 'a', None]
+
+    def wraps(L):
+        class Holder(pane.PaneBase):
+            v: L
+        return [(L, lambda p: p), (t.List[L], lambda p: [p]), (t.Optional[L], lambda p: p), (t.Dict[str, L], lambda p: {'k': p}), (Holder, lambda p: {'v': p})]
+
+    def outcomes(T, mk):
+        res = []
+        for p in probes:
+            try:
+                r = pane.from_data(mk(p), T)
+                res.append(('ok', repr(r)))
+            except pane.ConvertError:
+                res.append(('error',))
+            except Exception as e:
+                res.append(('escape', type(e).__name__))
+        return res
+    saved = dict(cache)
+    try:
+        with warnings.catch_warnings():
+            warnings.simplefilter('ignore')
+            for g in groups:
+                forms = [wraps(L) for L in g]
+                for k in range(len(forms[0])):
+                    col = [f[k] for f in forms]
+                    solo = []
+                    for T, mk in col:
+                        cache.clear()
+                        solo.append(outcomes(T, mk))
+                    for i, (A, mkA) in enumerate(col):
+                        for j, (B, mkB) in enumerate(col):
+                            if i == j:
+                                continue
+                            n += 1
+                            cache.clear()
+                            outcomes(A, mkA)
+                            got = outcomes(B, mkB)
+                            if got != solo[j]:
+                                d = [(probes[x], got[x], solo[j][x]) for x in range(len(probes)) if got[x] != solo[j][x]][0]
+                                out.violation('C10:equal-valued-types', f'after conversions to {A!r}, from_data({mkB(d[0])!r}, {B!r}) gives {d[1]}; with an empty converter cache it gives {d[2]}: '
+                                              f'the two types are different types whose parts compare equal', {'first': repr(A), 'then': repr(B), 'probe': repr(d[0])})
+    finally:
+        cache.clear()
+        cache.update(saved)
+    return n
+
+
 def run(ctx, out):
     import families as _famadh
     out.evaluations += _famadh.argument_dependent_handlers(out, PROP)
@@ -496,6 +558,7 @@ def run(ctx, out):
                 'built by the unmemoised function; (3) first-seen order reversed; (4) 96 threads converting concurrently vs sequential, '
                 'and an LRU KeyCache hammered by 8 threads. Non-trivial = history longer than 3 operations.')
     out.evaluations += failed_call_history(out)
+    out.evaluations += equal_valued_types(out)
     typekey_correspondence(ctx, out, rng)
     # (1)
     items = []
